@@ -931,6 +931,12 @@ def _factory_for(idx):
     return factory
 
 
+def _data_factory_for(idx):
+    def factory(data):
+        return 4000 + idx + 0 * len(data)
+    return factory
+
+
 def build_kind_model(kind: str, fdescs):
     """fdescs: [{name, mode: req|value|factory|withself, kw_only: bool, pos_only: bool}] -> (cls, log, introspect)"""
     import dataclasses
@@ -1034,6 +1040,8 @@ def build_kind_model(kind: str, fdescs):
                 pns[f["name"]] = 1000 + i
             elif f["mode"] == "factory":
                 pns[f["name"]] = Field(default_factory=_factory_for(i))
+            elif f["mode"] == "datafactory":   # pydantic >= 2.10: the factory receives the data validated so far
+                pns[f["name"]] = Field(default_factory=_data_factory_for(i))
 
         def __init__(self, **data):
             if not type(self).__dict__.get("_rec_pause"):
@@ -1093,6 +1101,8 @@ def rand_fdescs(rng, kind):
             mode = rng.choice(["req", "value"])
         elif kind == "typeddict":
             mode = rng.choice(["req", "value"])   # value = NotRequired
+        elif kind == "pydantic":
+            mode = rng.choice(["req", "value", "factory", "datafactory"])
         if not kw_only and kind != "typeddict" and kind != "pydantic":
             if seen_opt and mode == "req":
                 mode = "value"    # Python: no required positional after an optional one
@@ -1180,9 +1190,12 @@ def suite_kinds(ctx: Ctx, drv, n_models: int, forced=None):
             ctx.sample({"suite": "kind-shapes", "kind": kind, "fields": [(f["name"], f["mode"], f["kw_only"]) for f in fdescs],
                         "skip": skip, "present": present, "calls": calls}, every=131)
             has_withself = any(f["mode"] == "withself" and not f["kw_only"] for f in fdescs)
+            has_datafactory = any(f["mode"] == "datafactory" for f in fdescs)
             # ---- direct oracle ----
             if exc is not None:
-                sig = "call:packed-param-positional-shift" if has_withself and "multiple values" in exc else "kind:load-raises"
+                sig = "call:packed-param-positional-shift" if has_withself and "multiple values" in exc else \
+                    "default:pydantic-factory-takes-validated-data" if has_datafactory and exc.startswith("TypeError") else \
+                    "kind:load-raises"
                 ctx.fail(sig, f"{kind} model {[(f['name'], f['mode'], f['kw_only']) for f in fdescs]} skip {skip}: loading "
                          f"{data} raises {exc}", case)
             elif ref is not None:
@@ -1597,7 +1610,8 @@ def run(ctx: Ctx):
     suite_literals(ctx, drv, [rand_value(rng, rng.choice([1, 2, 3, 4])) for _ in range(ctx.budget(4000, 60000))])
     suite_factories(ctx, drv)
     suite_e2e_defaults(ctx, drv, default_cases(rng, ctx.budget(150, 4000)), ctx.budget(3, 5))
-    # constructor call
+    # constructor call (the public model kinds first, so that a reported failing input is a public-API one)
+    suite_kinds(ctx, drv, ctx.budget(420, 8000))
     max_n = 4 if thorough else 3
     for n in range(1, max_n + 1):
         run_plan_cases(ctx, drv, lab, list(gen_specs_exhaustive(n, PLAN_OPTS)), rng, max_skip_sets=8 if n <= 3 else 4,
@@ -1605,7 +1619,6 @@ def run(ctx: Ctx):
     run_plan_cases(ctx, drv, lab, list(gen_specs_exhaustive(2, FIELD_OPTS)), rng, max_skip_sets=4, with_kwargs_every=2)
     run_plan_cases(ctx, drv, lab, [rand_spec(rng, rng.randint(3, 6)) for _ in range(ctx.budget(500, 8000))], rng,
                    max_skip_sets=3, with_kwargs_every=4)
-    suite_kinds(ctx, drv, ctx.budget(420, 8000))
     suite_load_structure(ctx, drv, lab, ctx.budget(300, 5000))
     ctx.extra["exhaustive"] = False
     ctx.extra["exhaustive_part"] = (f"call-plan / py-binding / shape-validate: every kind layout of <= {max_n} parameters x "
